@@ -69,4 +69,46 @@ theorem mergeCell_pairwise (l : List Rect) (x1 y1 x2 y2 : Nat)
   intro a ha b hb
   simp only [List.mem_singleton] at hb; subst hb; exact hn a ha
 
+/-! ### `UnmergeCell` as a step (round 5, second wave) -/
+
+theorem find?_filter_of_imp (l : List Rect) (p q : Rect → Bool)
+    (h : ∀ m ∈ l, p m = true → q m = true) : (l.filter q).find? p = l.find? p := by
+  induction l with
+  | nil => rfl
+  | cons x xs ih =>
+    have ih' := ih (fun m hm => h m (by simp [hm]))
+    cases hq : q x
+    · have hp : p x = false := by
+        cases hp : p x
+        · rfl
+        · have := h x (by simp) hp; rw [hq] at this; cases this
+      simp [hq, hp, ih']
+    · cases hp : p x <;> simp [hq, hp, ih']
+
+theorem unmergeCell_of_disjoint (l : List Rect) (x1 y1 x2 y2 : Nat)
+    (h : l.Pairwise fun a b => overlap b a = false) :
+    unmergeCell l x1 y1 x2 y2 = l.filter fun m => !overlap (sortRect x1 y1 x2 y2) m := by
+  unfold unmergeCell; rw [normalize_of_disjoint l h]
+
+theorem unmergeCell_pairwise (l : List Rect) (x1 y1 x2 y2 : Nat)
+    (h : l.Pairwise fun a b => overlap b a = false) :
+    (unmergeCell l x1 y1 x2 y2).Pairwise fun a b => overlap b a = false := by
+  rw [unmergeCell_of_disjoint l x1 y1 x2 y2 h]; exact h.filter _
+
+theorem anchorOf_filter_keep (l : List Rect) (q : Rect → Bool) (c r : Nat)
+    (h : ∀ m ∈ l, inside m c r = true → q m = true) : anchorOf (l.filter q) c r = anchorOf l c r := by
+  unfold anchorOf
+  rw [find?_filter_of_imp l (fun m => inside m c r) q h]
+
+theorem anchorOf_filter_inside (l : List Rect) (rect : Rect) (c r : Nat) (h : inside rect c r = true) :
+    anchorOf (l.filter fun m => !overlap rect m) c r = (c, r) := by
+  unfold anchorOf
+  have : (l.filter fun m => !overlap rect m).find? (fun m => inside m c r) = none := by
+    apply List.find?_eq_none.mpr
+    intro o ho hi
+    have ho2 := (List.mem_filter.mp ho).2
+    have := inside_overlap rect o c r h (by simpa using hi)
+    rw [this] at ho2; cases ho2
+  rw [this]
+
 end XlModel.SaveMerge
